@@ -6,11 +6,14 @@ ASSUMPTIONS = [
     "theorems: class tables without do_not_copy=True classes and without plain subclasses; callbacks and default factories embed no heap references; the C02 conclusion has an extra disjunct for class-level default objects reached through getattr's class-attribute fallback (instance dict lacking the attribute: not produced by the API)",
     "oracle: structural sharing between result and receiver (canonical object graphs of the implementation) right after every copy-on-write call / deepcopy; this is stronger than visibility of later in-place mutations, which the follow-up operations of every history exercise through the model correspondence",
     "the targeted histories also report oracle bit 32 (an instance holds a class-level default object itself): the oracle chain stops at the first failing operation, and two instances holding the same class-level object is the root cause of the result/receiver sharing that bit 4 would report on a later reset",
+    "oracles evaluated in Python on the same observed graphs: a copy-on-write call that must produce a copy (a real value given, a transform, an element helper, reset) does not hand back the receiver itself; a do_not_copy attribute not addressed by the call is held by identity in the copy (receivers of K2, its spec subclass K3 and its PLAIN subclass K4)",
+    "plain subclasses (K4 = plain subclass of K2, flavour='plain'): correspondence and oracles only; the theorems keep the own_metadata guard",
     "exempt: objects reachable from arguments of the call, values of do_not_copy attributes (and what they reach), the receiver itself when a no-op form returns it",
     "class grammar as C01 plus identity item preparers on List/Dict of spec instances and more do_not_copy attributes; KeyedList/KeyedSet attributes and do_not_copy=True classes are outside the model",
 ]
 GENS = [
     (3, dict(bad_rate=0.1, inplace_rate=0.0, fail_rate=0.0)),
+    (2, dict(bad_rate=0.1, inplace_rate=0.1, fail_rate=0.0, flavour="plain")),
     (2, dict(bad_rate=0.1, inplace_rate=0.35, fail_rate=0.05, prefer_nested=True)),
 ]
 
@@ -61,14 +64,17 @@ def dnc_family_probe(chk, extra):
     spec subclasses have been bootstrapped.  Parent P and sibling S instances are derived from
     before and after the subclass Q (different do_not_copy list for inherited attributes) is first
     used; both directions (parent copies / child shares, parent shares / child copies); lazy and
-    eager bootstrap."""
+    eager bootstrap; and the same for a plain subclass of each of them."""
     n = bad = 0
     for eager in (False, True):
         for parent_dnc, child_dnc in (((), ("xs", "ks")), (("xs", "ks"), ()), (("xs",), ("ks",))):
             K, P, Q, S = c02_gen.dnc_family(parent_dnc, child_dnc, eager)
             for first_use in ("before", "after"):
-                for cls, dnc in ((P, parent_dnc), (S, ()), (Q, child_dnc)):
-                    if first_use == "before" and cls is Q:
+                members = [(P, parent_dnc), (S, ()), (Q, child_dnc)]
+                # a PLAIN (undecorated) subclass of each member behaves like the member
+                members += [(type("Plain" + c.__name__, (c,), {"__module__": "verif_generated"}), d) for c, d in members]
+                for cls, dnc in members:
+                    if first_use == "before" and issubclass(cls, Q):
                         continue
                     obj = cls(xs=[1, 2], ks=[K("a")])
                     for name, f in derive_all(obj):
@@ -155,6 +161,7 @@ def targeted(chk, cases, bad, extra):
     n_ops = 7 if chk.tier == "quick" else 10
     mine = [c02_gen.gen_case_c02(chk.rng, n_ops) for _ in range(n)]
     c02_gen.report(chk, "C02", 4 | 32, mine, extra, "targeted_histories")
+    c02_gen.report_python_oracles(chk, "C02", list(cases) + mine, extra, "python_oracles")
     dnc_subclass_probe(chk, extra)
     dnc_family_probe(chk, extra)
     survivor_probe(chk, extra)
@@ -167,6 +174,13 @@ def main(tier, replay=None):
         r = json.load(open(replay))
         probes = {"dnc-subclass": (dnc_subclass_probe, "dnc_subclass_probe"), "dnc-family": (dnc_family_probe, "dnc_family_probe"),
                   "reset-survivor": (survivor_probe, "reset_survivor_probe")}
+        if r.get("kind") in ("receiver-returned", "dnc-duplicated"):
+            import inst_common as ic
+            case = inst_check.load_replay(replay)
+            obs, _ = ic.run_case(case)
+            found = c02_gen.python_oracles(case, obs)
+            print("replay:", "still failing" if found else "passes now", found[:3])
+            return 1 if found else 0
         if r.get("kind") in probes:
             from common import Check
             fn, key = probes[r["kind"]]
